@@ -781,7 +781,7 @@ def c09_case(ctx, book, case_seed):
     if not pool:
         return
     F = rng.choice(pool)
-    kind = rng.choice(['nosuch', 'failk-always', 'failk-once'])
+    kind = rng.choice(['nosuch', 'failk-always', 'failk-once', 'nosuch-keyword', 'failname'])
     case = {'kind': 'real-book', 'book': book, 'case_seed': case_seed, 'failing': F, 'fault': kind}
     related = set(desc[F]) | {F}
     dependants = [a for a in desc[F] if ':' not in a and a in info['text'] and a not in unstable]
@@ -838,7 +838,7 @@ def c09_case(ctx, book, case_seed):
                 f'failure; the unmodified workbook gives {want!r:.100}')
             return
     # repair
-    const = rng.choice([3, 0.5, -2, 40000])
+    const = rng.choice([3, 0.5, -2, 40000, 0, 0.0])
     for m in (comp, fresh):
         if F not in m.cell_map:
             c09.call(m.evaluate, F)
